@@ -278,6 +278,15 @@ def _from(vm, cal, args):
         return vm.cast(v, tb, 'IntToInt')
     if tb == 'f64' and z3.is_fp(v):
         return vm.cast(v, 'f64', 'FloatToFloat')
+    if cal.method == 'into':
+        # std's blanket `impl<T, U: From<T>> Into<U> for T`: into() is U::from(self); use the crate's From impl if any
+        from vm import Callee
+        c2 = Callee("<%s as From<%s>>::from" % (target, src))
+        c2.dest_ty, c2.env = None, getattr(cal, 'env', {})
+        r = vm.resolve(c2)
+        if r is not None:
+            fn, cenv = r
+            return vm.exec_fn(fn, [v], cenv)
     raise Unmodelled("conversion %s -> %s" % (src, target))
 
 
